@@ -7,6 +7,8 @@ name=$1; wt=$2; patch=$3; demo=$4; shift 4
 export GOFLAGS=-mod=mod GOPROXY=off GOSUMDB=off GOTOOLCHAIN=local
 cd "$wt" || exit 2
 cp "$demo" /var/tmp/demo.$$.go
+# the patch may live (untracked) inside the worktree that is cleaned next
+cp "$patch" /var/tmp/patch.$$.diff; patch=/var/tmp/patch.$$.diff
 git checkout -q -- . ; git clean -fdq
 git apply "$patch" || { echo "patch does not apply"; exit 2; }
 cp /var/tmp/demo.$$.go "$demo"
@@ -29,4 +31,4 @@ if [ "$wres" = FAIL ] && [ "$ores" = PASS ] && [ "$suite" = 4 ] && [ "$fsub" = 1
 else
 	echo NOT-CONFIRMED; echo "$with"; echo "$without"
 fi
-rm -f /var/tmp/demo.$$.go "$demo"
+rm -f /var/tmp/demo.$$.go /var/tmp/patch.$$.diff "$demo"
